@@ -126,8 +126,7 @@ Section Go.
                                   amp32 f32 vlerp pan32 fuel audio (psize_of packets) (land_of packets gran) cap.
 End Go.
 
-Definition source_of (audio : list frame32) : source frame32 :=
-  {| src_len := Z.of_nat (length audio); src_get := fun i => nth (Z.to_nat i) audio frame_zero |}.
+Definition source_of (audio : list frame32) : source frame32 := audio_source frame32 frame_zero audio.
 
 Definition run (c : case) : list Z :=
   match c with
